@@ -34,4 +34,13 @@ def main():
     sys.exit(2)
 
 
-main()
+try:
+    main()
+except SystemExit:
+    raise
+except BaseException:
+    # a defect of the machinery itself must never look like a verdict (exit 1 is reserved for violations)
+    import traceback
+    traceback.print_exc()
+    print("lesim-check: internal error in the checking machinery (exit 2)", file=sys.stderr)
+    sys.exit(2)
